@@ -56,7 +56,7 @@ def pl(pol):
 class C15(Prop):
     id = "C15"
     title = "File access is confined to the mudlib and always mediated by the master"
-    lean_modules = ["NV.C15.Props", "NV.C15.PropsSys", "NV.C15.Sites", "NV.C15.Witness"]
+    lean_modules = ["NV.C15.Props", "NV.C15.PropsSys", "NV.C15.Negative", "NV.C15.Sites", "NV.C15.Witness"]
     theorems = ["NV.C15.legalPath_eq_spec", "NV.C15.legal_path_spec", "NV.C15.legal_path_secure",
                 "NV.C15.legal_path_safe", "NV.C15.check_valid_path_eq_spec", "NV.C15.check_valid_path_sound",
                 "NV.C15.check_valid_path_denied", "NV.C15.strip_name_relative", "NV.C15.load_open_confined",
@@ -64,9 +64,10 @@ class C15(Prop):
                 "NV.C15.include_path_confined_config", "NV.C15.judge_lp_model",
                 "NV.C15.judge_cvp_model", "NV.C15.judge_inc_model", "NV.C15.judge_sn_model",
                 "NV.C15.model_satisfies_spec", "NV.C15.model_satisfies_spec_absent", "NV.C15.model_satisfies_spec_present",
-                "NV.C15.ed_session_satisfies_spec", "NV.C15.ed_session_satisfies_spec_absent", "NV.C15.segOk_edStep",
+                "NV.C15.legalLoop_fuel_irrelevant", "NV.C15.ed_session_satisfies_spec", "NV.C15.ed_session_satisfies_spec_absent", "NV.C15.segOk_edStep",
                 "NV.C15.efun_segOk", "NV.C15.fold_ok", "NV.C15.check_valid_path_error_fails_closed",
-                "NV.C15.check_valid_path_absent_or_odd_approves", "NV.C15.mediation_propagates_errors",
+                "NV.C15.check_valid_path_absent_or_odd_approves", "NV.C15.mediation_propagates_errors", "NV.C15.cvp_call_table", "NV.C15.legal_path_literals",
+                "NV.C15.save_tmp_format",
                 "NV.C15.mediated_sites", "NV.C15.inventory_covers_efuns", "NV.C15.efun_surface_modelled"]
     witness_theorems = ["NV.C15.include_normaliser_not_confined", "NV.C15.include_normaliser_trailing_dotdot",
                         "NV.C15.include_normaliser_slash_quirk", "NV.C15.include_unguarded_escapes",
